@@ -54,6 +54,34 @@ class Handle:
         self.state = "attached"
 
 
+def _same_size_change(doc):
+    """Change one scalar of doc so that the JSON text keeps its length (int 23 -> 24, 's7' -> 't7'); None if impossible."""
+    def walk(v):
+        if isinstance(v, dict):
+            for k in v:
+                r = walk(v[k])
+                if r is not None:
+                    v[k] = r[0]
+                    return (v,)
+            return None
+        if isinstance(v, list):
+            for i in range(len(v)):
+                r = walk(v[i])
+                if r is not None:
+                    v[i] = r[0]
+                    return (v,)
+            return None
+        if isinstance(v, bool) or v is None:
+            return None
+        if isinstance(v, int) and v % 10 not in (9,) and v >= 0:
+            return (v + 1,)
+        if isinstance(v, str) and v and v[0] in "abcdefghijklmnopqrstuvwxy":
+            return (chr(ord(v[0]) + 1) + v[1:],)
+        return None
+    r = walk(doc)
+    return doc if r is not None else None
+
+
 class _ModelOperands:
     """Resolves {"$handle": i} operands to the model's plain value of that handle (for the model side)."""
 
@@ -355,6 +383,29 @@ class World:
             new = deep(ed[1])
             if kind_of(new) != r.kind:
                 raise Skip()
+        elif ed[0] == "nudge":
+            # SAME SIZE content change whose mtime differs from the previous one by 1 ns only (legal for an outside
+            # writer; the library's conflict fingerprint is (size, mtime_ns))
+            if r.disk is None or r.store != "file":
+                raise Skip()
+            raw_old = seams.REAL["open"](r.ident, "rb").read()
+            new_doc = _same_size_change(deep(r.disk))
+            if new_doc is None:
+                raise Skip()
+            raw_new = seams.REAL["dumps"](new_doc).encode()
+            if len(raw_new) != len(raw_old):
+                raise Skip()
+            mt = seams.REAL["stat"](r.ident).st_mtime_ns
+            tmp = r.ident + ".outside"
+            with seams.REAL["open"](tmp, "wb") as f:
+                f.write(raw_new)
+            seams.REAL["replace"](tmp, r.ident)
+            seams.REAL["utime"](r.ident, ns=(mt + 1, mt + 1))
+            self.clock_ns = max(self.clock_ns, mt + 1)
+            self.stat("outside_write")
+            self.stat("outside_nudge_1ns")
+            self.after_outside(r, new_doc)
+            return
         elif ed[0] == "reformat":
             # same content, different serialisation (key order reversed, indentation)
             if r.disk is None or r.store != "file":
